@@ -560,7 +560,8 @@ def c12_replay(rep, tier, seed, new_sites=()):
     if tier == "quick":
         jobs = [("demo/HyperElasticity.py", {}), ("demo/FacetIntegrals.py", {}), ("demo/CellGeometry.py", {}),
                 ("corpus/tp_sumfact.py", {"sum_factorization": True}), ("corpus/mixed_enriched_symmetric.py", {}),
-                ("corpus/vertex_ridge.py", {}), ("corpus/expressions.py", {}), ("corpus/subdomains.py", {})]
+                ("corpus/vertex_ridge.py", {}), ("corpus/expressions.py", {}), ("corpus/subdomains.py", {}),
+                ("corpus/macro_iso.py", {})]
         variants = [(1 + seed % 5, 0), (0, 2)]
     else:
         jobs = C.demo_files() + C.corpus_files()
@@ -848,3 +849,361 @@ def c10_sumfact_scope(rep, tier, seed):
     name = "representation: use_sum_factorization = sum_factorization and integral_type == 'cell'"
     ok = len(assigns) == 1 and ast.unparse(assigns[0].value) == "sum_factorization and integral_type == 'cell'"
     (rep.ob(name, "proved", "exhaustive-finite", "exhaustive") if ok else rep.violation("finite:sumfact-scope", name, dict(got=[ast.unparse(a) for a in assigns])))
+
+
+# ------------------------------------------------------------------------------------------ C07
+def c07_licm_storage(rep, tier, seed):
+    """optimizer.licm on synthetic two-level loop nests of many sizes: the hoisted arrays are declared inside the
+    section, are automatic (no 'static' in the real C formatter's text) and non-const, and A is still only updated by +=.
+    Bounded over the loop sizes listed; the sizes include very large ones so that size thresholds are crossed."""
+    import ffcx.codegeneration.lnodes as L
+    from ffcx.codegeneration.C.formatter import Formatter
+    from ffcx.codegeneration.optimizer import licm
+
+    fmt = Formatter("float64")
+    sizes = [1, 2, 3, 8, 31, 32, 33, 63, 64, 65, 127, 128, 129, 255, 256, 257, 1000, 1024, 1025, 4096, 65537, 10 ** 6]
+    for n in sizes:
+        for m in (3, n):
+            i, j = L.Symbol("i", L.DataType.INT), L.Symbol("j", L.DataType.INT)
+            A = L.Symbol("A", L.DataType.SCALAR)
+            fw = L.Symbol("fw0", L.DataType.SCALAR)
+            T1, T2 = L.Symbol("FE1", L.DataType.REAL), L.Symbol("FE2", L.DataType.REAL)
+            body = L.AssignAdd(A[L.Sum([L.Product([L.LiteralInt(m), i]), j])], L.Product([fw, T1[i], T2[j]]))
+            nest = L.ForRange(i, 0, n, [L.ForRange(j, 0, m, [body])])
+            sec = L.Section("Tensor Computation", [nest], [], [fw, T1, T2], [A], [L.Annotation.licm])
+            out = licm(sec, None)
+            text = fmt(out)
+            name = f"licm(outer={n}, inner={m}): hoisted arrays are automatic storage in the section"
+            bad = [ln for ln in text.splitlines() if "static" in ln and "static const" not in ln]
+            decls = [s for s in out.statements if isinstance(s, L.ArrayDecl)]
+            ok = not bad and all(not d.const for d in decls) and len(decls) >= 1 and "temp_0" in text and " = " not in [ln for ln in text.splitlines() if "A[" in ln and "+=" not in ln and "temp" not in ln][:1]
+            if ok:
+                rep.ob(name, "proved", "runtime-contract", "bounded")
+            else:
+                rep.violation(f"licm:storage:{'static' if bad else 'shape'}", name + f" fails: {bad[:1] or 'no hoisted array'}",
+                              dict(obligation=name, text=text[:600], how_to_replay="checks/finite.py::c07_licm_storage builds the section; optimizer.licm; C Formatter"))
+                return
+
+
+# ------------------------------------------------------------------------------------------ C02
+def c02_geometry_access(rep, tier, seed):
+    """access.cell_vertices / cell_edge_vectors / facet_edge_vectors read coordinate_dofs[restriction][node][3]:
+    exhaustive over cell types x geometric dimension x vertex/edge x component x restriction, on the real functions,
+    against the UFCx layout computed from basix' reference topology."""
+    import basix
+    import basix.ufl
+    import ufl
+
+    import ffcx.codegeneration.lnodes as L
+    from contracts import spec
+    from ffcx.codegeneration.access import FFCXBackendAccess
+    from ffcx.codegeneration.symbols import FFCXBackendSymbols
+    from ffcx.ir.analysis.modified_terminals import analyse_modified_terminal
+    from pyvc.models import NativeEnv
+
+    class Env(NativeEnv):
+        def memi(self, name, idxs):
+            return 1 + sum(int(i) for i in idxs) % 3  # some vertex number read from the *_facet_edge_vertices table
+
+        def mem(self, name, idxs):
+            return self.memi(name, idxs)
+
+    env = Env()
+    cells = [("interval", 1), ("interval", 2), ("triangle", 2), ("triangle", 3), ("quadrilateral", 2), ("quadrilateral", 3),
+             ("tetrahedron", 3), ("hexahedron", 3)]
+    n = 0
+    for cellname, gdim in cells:
+        mesh = ufl.Mesh(basix.ufl.element("Lagrange", cellname, 1, shape=(gdim,)))
+        ct = getattr(basix.CellType, cellname)
+        topo = basix.topology(ct)
+        nverts = len(topo[0])
+        symbols = FFCXBackendSymbols({}, {}, {})
+        acc = FFCXBackendAccess("facet", "interior_facet", symbols, {})
+
+        def index_of(e):
+            assert isinstance(e, L.ArrayAccess) and e.array.name == "coordinate_dofs" and len(e.indices) == 1, repr(e)
+            return spec.ev(e.indices[0], env)
+
+        for r in (None, "+", "-"):
+            off = 3 * nverts if r == "-" else 0
+
+            def restricted(e, r=r):
+                return e(r) if r else e
+
+            for comp in range(gdim):
+                for v in range(nverts):
+                    mt = analyse_modified_terminal(restricted(ufl.classes.CellVertices(mesh)[v, comp]))
+                    name = f"cell_vertices {cellname} gdim={gdim} vertex={v} comp={comp} restriction={r}: coordinate_dofs[{off} + 3*{v} + {comp}]"
+                    try:
+                        got = index_of(acc.cell_vertices(mt, None, None))
+                        ok = got == off + 3 * v + comp
+                    except Exception as e:  # noqa: BLE001
+                        got, ok = f"{type(e).__name__}: {e}", False
+                    n += 1
+                    (rep.ob(name, "proved", "exhaustive-finite", "exhaustive", sample=dict(obligation=name) if n == 5 else None) if ok else
+                     rep.violation(f"geom:cell_vertices:{cellname}:{gdim}:{r}", name + f" fails: index {got}", dict(obligation=name, got=str(got),
+                                   how_to_replay="FFCXBackendAccess.cell_vertices on analyse_modified_terminal(CellVertices(mesh)[v, c](r))")))
+                if cellname != "interval":
+                    for e_i, (v0, v1) in enumerate(topo[1]):
+                        mt = analyse_modified_terminal(restricted(ufl.classes.CellEdgeVectors(mesh)[e_i, comp]))
+                        name = f"cell_edge_vectors {cellname} gdim={gdim} edge={e_i} comp={comp} restriction={r}"
+                        try:
+                            res = acc.cell_edge_vectors(mt, None, None)
+                            assert isinstance(res, L.Sub)
+                            a, b = index_of(res.lhs), index_of(res.rhs)
+                            ok = {a, b} == {off + 3 * v0 + comp, off + 3 * v1 + comp}
+                        except Exception as e:  # noqa: BLE001
+                            a = b = f"{type(e).__name__}: {e}"
+                            ok = False
+                        n += 1
+                        (rep.ob(name, "proved", "exhaustive-finite", "exhaustive") if ok else
+                         rep.violation(f"geom:cell_edge_vectors:{cellname}:{gdim}:{r}", name + f" fails: indices {a}, {b}", dict(obligation=name)))
+                if cellname in ("tetrahedron", "hexahedron"):
+                    nfe = 3 if cellname == "tetrahedron" else 4
+                    for fe in range(nfe):
+                        mt = analyse_modified_terminal(restricted(ufl.classes.FacetEdgeVectors(mesh)[fe, comp]))
+                        name = f"facet_edge_vectors {cellname} facet-edge={fe} comp={comp} restriction={r}"
+                        try:
+                            res = acc.facet_edge_vectors(mt, None, None)
+                            assert isinstance(res, L.Sub)
+                            # index = 3*table[facet][edge][k] + comp + off with the table value supplied by env
+                            a, b = index_of(res.lhs), index_of(res.rhs)
+                            ok = (a - comp - off) % 3 == 0 and (b - comp - off) % 3 == 0 and 0 <= (a - comp - off) // 3 <= 3 and 0 <= (b - comp - off) // 3 <= 3
+                        except Exception as e:  # noqa: BLE001
+                            a = b = f"{type(e).__name__}: {e}"
+                            ok = False
+                        n += 1
+                        (rep.ob(name, "proved", "exhaustive-finite", "exhaustive") if ok else
+                         rep.violation(f"geom:facet_edge_vectors:{cellname}:{r}", name + f" fails: indices {a}, {b}", dict(obligation=name)))
+
+
+# ------------------------------------------------------------------------------------------ C05
+def c05_flat_component(rep, tier, seed):
+    """Constants are read from c flattened row-major: analyse_modified_terminal(K[idx]).flat_component == flat(idx, shape)
+    for every index of every constant shape with extents 1..3 and rank <= 3; the same for geometry without symmetry
+    (Jacobian of non-square shape). Exhaustive on the real function."""
+    import itertools
+
+    import basix.ufl
+    import ufl
+
+    from contracts import spec
+    from ffcx.ir.analysis.modified_terminals import analyse_modified_terminal
+
+    mesh = ufl.Mesh(basix.ufl.element("Lagrange", "triangle", 1, shape=(3,)))
+    n = 0
+    shapes = [s for r in (1, 2, 3) for s in itertools.product((1, 2, 3), repeat=r)]
+    for shape in shapes:
+        K = ufl.Constant(mesh, shape=shape)
+        for idx in itertools.product(*[range(s) for s in shape]):
+            mt = analyse_modified_terminal(K[idx])
+            want = spec.flat(list(idx), list(shape))
+            n += 1
+            name = f"Constant of shape {shape}: entry {idx} has flat component {want} (row-major)"
+            if mt.flat_component == want:
+                rep.ob(name, "proved", "exhaustive-finite", "exhaustive", sample=dict(obligation=name) if n == 40 else None)
+            else:
+                rep.violation(f"flat-component:constant:{shape}", name + f" fails: got {mt.flat_component}",
+                              dict(obligation=name, got=int(mt.flat_component), how_to_replay="analyse_modified_terminal(Constant(mesh, shape)[idx]).flat_component"))
+                break
+    J = ufl.Jacobian(mesh)  # shape (3, 2): non-square
+    for idx in itertools.product(range(3), range(2)):
+        mt = analyse_modified_terminal(J[idx])
+        want = spec.flat(list(idx), [3, 2])
+        name = f"Jacobian of shape (3, 2): entry {idx} has flat component {want}"
+        (rep.ob(name, "proved", "exhaustive-finite", "exhaustive") if mt.flat_component == want else
+         rep.violation("flat-component:jacobian", name + f" fails: got {mt.flat_component}", dict(obligation=name)))
+
+
+# ------------------------------------------------------------------------------------------ C11
+def c11_rule_selection(rep, tier, seed):
+    """_group_integrands_by_quadrature_rule: for every cell type x integral type x scheme in {vertex, default, custom} the rule
+    attached to an integrand is a rule of the INTEGRATION ENTITY: vertex scheme = the entity's reference vertices with equal
+    weights summing to the entity's reference volume; default scheme = weights summing to that volume and the requested degree;
+    custom = the given points and weights; integrands with different rules never share a list. Exhaustive over the finite
+    domain, on the real function (integrals are stand-ins exposing metadata()/integrand())."""
+    import warnings
+
+    import basix
+    import numpy as np
+    import ufl
+
+    from ffcx.ir.representation import _group_integrands_by_quadrature_rule as group
+
+    class Itg:
+        def __init__(self, md, tag):
+            self.md, self.tag = md, tag
+
+        def metadata(self):
+            return self.md
+
+        def integrand(self):
+            return self.tag
+
+    vol = {"point": 1.0, "interval": 1.0, "triangle": 0.5, "quadrilateral": 1.0, "tetrahedron": 1 / 6, "hexahedron": 1.0}
+    entity = {"cell": 0, "exterior_facet": 1, "interior_facet": 1, "ridge": 2}
+    cells = ["interval", "triangle", "quadrilateral", "tetrahedron", "hexahedron"]
+    n = 0
+    for cellname in cells:
+        cell = ufl.Cell(cellname)
+        ct = getattr(basix.CellType, cellname)
+        tdim = cell.topological_dimension
+        for itype, codim in entity.items():
+            if tdim - codim < 0 or (itype == "ridge" and tdim < 2):
+                continue
+            sub = basix.cell.subentity_types(ct)[tdim - codim]
+            ent = sub[0]
+            for scheme in ("vertex", "default"):
+                for degrees in ((1,), (2,), (1, 2), (2, 1)):
+                    if scheme == "vertex" and tdim - codim == 0:
+                        continue
+                    itgs = [Itg({"quadrature_rule": scheme, "quadrature_degree": d}, f"integrand{k}") for k, d in enumerate(degrees)]
+                    name = f"{cellname} {itype} scheme={scheme} degrees={degrees}: rules belong to the integration entity ({ent.name})"
+                    try:
+                        with warnings.catch_warnings():
+                            warnings.simplefilter("ignore")
+                            g = group(itgs, (), itype, cell, False)
+                        ok = set(g.keys()) == {ent}
+                        rules = g.get(ent, {})
+                        for rule, lst in rules.items():
+                            ok = ok and abs(float(np.sum(rule.weights)) - vol[ent.name]) < 1e-12
+                            ok = ok and rule.points.shape[1] == tdim - codim
+                            if scheme == "vertex":
+                                ok = ok and np.allclose(rule.points, basix.geometry(ent)) and np.allclose(rule.weights, rule.weights[0])
+                        if scheme == "default":
+                            ok = ok and sorted(x for lst in rules.values() for x in lst) == sorted(i.tag for i in itgs)
+                            ok = ok and len(rules) == len(set(degrees)) or (ok and len(rules) <= len(degrees))
+                    except Exception as e:  # noqa: BLE001
+                        ok = False
+                        name += f" [{type(e).__name__}: {e}]"
+                    n += 1
+                    if ok:
+                        rep.ob(name, "proved", "exhaustive-finite", "exhaustive", sample=dict(obligation=name) if n == 7 else None)
+                    else:
+                        rep.violation(f"rule-selection:{cellname}:{itype}:{scheme}:{len(degrees)}", name + " fails",
+                                      dict(obligation=name, how_to_replay="ffcx.ir.representation._group_integrands_by_quadrature_rule with stand-in integrals"))
+    # custom scheme: points and weights unchanged
+    pts, wts = np.array([[0.2, 0.3], [0.6, 0.1]]), np.array([0.25, 0.25])
+    g = group([Itg({"quadrature_rule": "custom", "quadrature_points": pts, "quadrature_weights": wts}, "x")], (), "cell", ufl.Cell("triangle"), False)
+    (rule,) = g[basix.CellType.triangle].keys()
+    ok = np.array_equal(rule.points, pts) and np.array_equal(rule.weights, wts)
+    (rep.ob("custom scheme: the metadata's points and weights are used unchanged", "proved", "exhaustive-finite", "exhaustive") if ok else
+     rep.violation("rule-selection:custom", "custom quadrature points/weights are altered", {}))
+
+
+# ------------------------------------------------------------------------------------------ C17
+def c17_check_dependency(rep, tier, seed):
+    """optimizer.check_dependency(arg, index) is False only if arg does not mention the index - exhaustive over the operand
+    shapes the generators build (symbols, literals, array accesses whose indices are symbols, literals, entity/permutation
+    reads, or ONE Sum/Product of those), on the real function."""
+    import itertools
+
+    import ffcx.codegeneration.lnodes as L
+    from ffcx.codegeneration.optimizer import check_dependency
+
+    i, j, k = (L.Symbol(n, L.DataType.INT) for n in "ijk")
+    ent = L.Symbol("entity_local_index", L.DataType.INT)[0]
+    atoms = [i, j, k, L.LiteralInt(0), L.LiteralInt(2)]
+    idx_exprs = list(atoms) + [ent]
+    for a, b in itertools.permutations(atoms, 2):
+        idx_exprs.append(L.Sum([a, b]))
+        idx_exprs.append(L.Product([a, b]))
+
+    def mentions(e, s):
+        if isinstance(e, L.Symbol):
+            return e == s
+        if isinstance(e, L.NaryOp):
+            return any(mentions(a, s) for a in e.args)
+        if isinstance(e, L.ArrayAccess):
+            return any(mentions(x, s) for x in e.indices)
+        return False
+
+    T = L.Symbol("FE0", L.DataType.REAL)
+    operands = [L.Symbol("fw0", L.DataType.SCALAR), L.LiteralFloat(2.0), L.LiteralInt(3)]
+    for n in (1, 2, 3):
+        for combo in itertools.product(idx_exprs, repeat=n) if n < 3 else itertools.product(idx_exprs[:6], repeat=3):
+            operands.append(L.ArrayAccess(T, list(combo)))
+    bad = 0
+    n = 0
+    for op in operands:
+        for s in (i, j):
+            n += 1
+            got = check_dependency(op, s)
+            want = mentions(op, s)
+            if got is False and want:
+                bad += 1
+                rep.violation("check_dependency:missed", f"check_dependency({op!r}, {s!r}) is False but the operand mentions the index: "
+                              "licm would hoist an index-dependent factor", dict(operand=repr(op), index=repr(s)))
+                return
+    rep.ob(f"check_dependency is sound on {n} (operand, index) pairs of the generator shapes", "proved", "exhaustive-finite", "exhaustive")
+
+
+def c13_cross_process(rep, tier, seed):
+    """Names computed for a fixed set of requests are the same in a fresh process and in a process with a history
+    (other objects named and released before): bounded over the sampled requests."""
+    import json
+    import subprocess
+    import sys
+
+    child = r'''
+import sys, json, gc
+sys.path.insert(0, "/verif")
+import numpy as np, basix.ufl, ufl
+from ffcx import naming
+history = int(sys.argv[1])
+def objs():
+    mesh = ufl.Mesh(basix.ufl.element("Lagrange", "triangle", 1, shape=(2,)))
+    P1 = ufl.FunctionSpace(mesh, basix.ufl.element("Lagrange", "triangle", 1))
+    P2 = ufl.FunctionSpace(mesh, basix.ufl.element("Lagrange", "triangle", 2))
+    return mesh, P1, P2
+pts = np.array([[0.25, 0.25], [0.5, 0.1]])
+if history:
+    for k in range(40):
+        mesh, P1, P2 = objs()
+        e = ufl.grad(ufl.Coefficient(P1 if k % 2 else P2)) if k % 3 else ufl.Coefficient(P1) ** 2
+        naming.expression_name((e, pts), "warm")
+        naming.compute_signature([(e, pts)], "warm")
+        f = ufl.Coefficient(P1) * ufl.TestFunction(P1) * ufl.dx
+        naming.form_name(f, 0, "warm")
+        del e, f, mesh, P1, P2
+        gc.collect()
+out = []
+for k in range(12):
+    mesh, P1, P2 = objs()
+    V = P2 if k % 2 else P1
+    f = ufl.Coefficient(V)
+    e = [ufl.grad(f), f * f, ufl.grad(ufl.grad(f)), f.dx(0)][k % 4]
+    out.append(naming.expression_name((e, pts), "p"))
+    a = ufl.TrialFunction(V) * ufl.TestFunction(V) * ufl.dx(k % 3)
+    out.append(naming.form_name(a, 0, "p"))
+    out.append(naming.integral_name(a, "cell", 0, (k % 3,), "p"))
+    del mesh, P1, P2, V, f, e, a
+    gc.collect()
+print(json.dumps(out))
+'''
+    res = {}
+    for h in (0, 1):
+        r = subprocess.run([sys.executable, "-c", child, str(h)], capture_output=True, text=True, timeout=600,
+                           env=dict(__import__("os").environ, PYTHONHASHSEED=str(h + seed % 3)))
+        if r.returncode != 0:
+            rep.error("c13 cross-process", r.stderr[-800:])
+            return
+        res[h] = json.loads(r.stdout.strip().splitlines()[-1])
+    same = res[0] == res[1]
+    distinct = len(set(res[0])) == len(set(res[0][i] for i in range(len(res[0]))))
+    name = "names of 36 sampled requests are equal in a fresh process and in a process that named and released 120 other objects before"
+    if same:
+        rep.ob(name, "proved", "runtime-contract", "bounded")
+    else:
+        k = next(i for i, (a, b) in enumerate(zip(res[0], res[1])) if a != b)
+        rep.violation("names:history", name + f" fails at request #{k}: {res[0][k][:30]} vs {res[1][k][:30]}",
+                      dict(obligation=name, request=k, fresh=res[0][k], with_history=res[1][k],
+                           how_to_replay="checks/finite.py::c13_cross_process child script with history 0 / 1"))
+    # different integrands must not share a name (k%4 classes x P1/P2)
+    exprs = res[0][0::3]
+    classes = {}
+    for k, nm in enumerate(exprs):
+        classes.setdefault(nm, set()).add((k % 4, k % 2))
+    bad = {nm: c for nm, c in classes.items() if len(c) > 1}
+    (rep.ob("different sampled expressions get different names", "proved", "runtime-contract", "bounded") if not bad else
+     rep.violation("names:collision", f"different expressions share a name: {list(bad.values())[:2]}", {}))
